@@ -98,7 +98,7 @@ func collectUnits(prog *Program, prop string) []*unit {
 		if fc.Extern || !hasProp(fc.Props, prop) {
 			continue
 		}
-		vc, err := buildVC(prog, key)
+		vc, err := buildVCSafe(prog, key)
 		u := &unit{key: key, vc: vc}
 		if err != nil {
 			u.err = err.Error()
@@ -462,7 +462,7 @@ func flagPassed(fs *flag.FlagSet, name string) bool {
 }
 
 func structuralKind(name string) bool {
-	for _, k := range []string{"/post/", "/lemma/", "/loop-entry/", "/loop-back/", "/pre/", "/frame/", "/table/", "/token/", "/callpre/", "/nocall/"} {
+	for _, k := range []string{"/post/", "/lemma/", "/loop-entry/", "/loop-back/", "/pre/", "/frame/", "/table/", "/token/", "/callpre/", "/nocall/", "/token/", "/chan-payload/"} {
 		if strings.Contains(name, k) {
 			return true
 		}
